@@ -27,7 +27,7 @@ if [ "${1:-}" = "replay" ]; then
 fi
 
 TIER="${1:-quick}"; SEED="${2:-1}"; export VSIM_TIER="$TIER"
-case "$TIER" in quick) N=128;; *) N=3200;; esac
+case "$TIER" in quick) N=128; LIMIT=900;; *) N=3200; LIMIT=5400;; esac
 W=16
 rm -rf "$LOGS"; mkdir -p "$LOGS"
 t0=$(date +%s.%N)
@@ -35,7 +35,9 @@ t0=$(date +%s.%N)
 cargo +nightly miri run --quiet --manifest-path ../sim/Cargo.toml -- miri-batch "$SEED" 0 0 1 >"$LOGS/build.log" 2>&1 || { echo "HARNESS-ERROR: building vsim for Miri failed (see $LOGS/build.log)"; tail -20 "$LOGS/build.log"; exit 2; }
 pids=()
 for k in $(seq 0 $((W-1))); do
-  ( cargo +nightly miri run --quiet --manifest-path ../sim/Cargo.toml -- miri-batch "$SEED" "$k" "$N" "$W" >"$LOGS/$k.out" 2>"$LOGS/$k.err"; echo $? >"$LOGS/$k.rc" ) &
+  # (time limit per worker: a change that makes a run wait forever for real
+  # must not hang the tier; a timed-out worker is reported for its current run)
+  ( timeout "$LIMIT" cargo +nightly miri run --quiet --manifest-path ../sim/Cargo.toml -- miri-batch "$SEED" "$k" "$N" "$W" >"$LOGS/$k.out" 2>"$LOGS/$k.err"; echo $? >"$LOGS/$k.rc" ) &
   pids+=($!)
 done
 wait "${pids[@]}"
@@ -49,6 +51,8 @@ for k in $(seq 0 $((W-1))); do
     if grep -q "VIOLATION-CANDIDATE" "$LOGS/$k.out"; then
       idx=$(grep -o "^VIOLATION-CANDIDATE index=[0-9]*" "$LOGS/$k.out" | head -1 | cut -d= -f2)
       why=$(grep "^VIOLATION-CANDIDATE" "$LOGS/$k.out" | head -1 | cut -c1-400)
+    elif [ "$r" = "124" ]; then
+      why="Miri worker $k exceeded its time limit ($LIMIT s) in this run (a real, unsimulated wait: hang)"
     elif grep -q "Undefined Behavior\|error: .*deadlock\|Data race" "$LOGS/$k.err"; then
       why=$(grep -m1 -A3 "Undefined Behavior\|deadlock\|Data race" "$LOGS/$k.err" | tr '\n' ' ' | cut -c1-400)
     else
